@@ -285,9 +285,19 @@ def replay(pid, path):
     return 0
 
 
+def run_one(pid, tier, seed, index):
+    """debug helper: ./vcheck <ID> --case <tier> <seed> <index>"""
+    import tempfile
+    path = os.path.join(tempfile.gettempdir(), f"verif_case_{pid}_{tier}_{seed}_{index}.json")
+    json.dump({"tier": tier, "seed": int(seed), "index": int(index)}, open(path, "w"))
+    return replay(pid, path)
+
+
 def main(argv):
     if len(argv) >= 3 and argv[1] == "--replay":
         return replay(argv[0], argv[2])
+    if len(argv) >= 5 and argv[1] == "--case":
+        return run_one(argv[0], argv[2], argv[3], argv[4])
     pid = argv[0]
     tier = argv[1] if len(argv) > 1 else os.environ.get("VERIF_TIER", "quick")
     seed = int(os.environ.get("VERIF_SEED", "0"))
